@@ -5,6 +5,6 @@ CONSTANTS
   MaxInt = 1
   MaxNC = 2
   MaxA = 2
-  MaxH = 1
+  MaxH = 0
   Budgets = {1}
 PROPERTIES Termination VersionMonotone
